@@ -12,6 +12,10 @@ EXPLANATION = ("Harness c11.prog: hierarchies (A>B, A>M>B with M not declaring, 
                "symbolic values, optionally changing the Parameter type along the chain (Number>Integer, Parameter>Integer), created "
                "by a class statement or by add_parameter; the resulting Parameter is compared slot by slot with an independent MRO "
                "resolver and class creation must fail exactly when the merged non-None default violates the merged bounds/type.")
+EXPLANATION += (" Harness c11.flags: constant / readonly specified in symbolic subsets over three declaring levels (with a skipping "
+                "class, class statement or add_parameter): each is inherited independently of the other.")
+EXPLANATION += (" Harness c11.rngstep: a Range redeclared with a symbolic subset of {step, bounds, softbounds} under an inherited "
+                "default: creation fails exactly when the inherited default violates the merged step direction or bounds.")
 EXPLANATION += (" Harness c11.root: a first declaration (no ancestor declares the Parameter; class statement, add_parameter, or a "
                 "subclass of classes that skip it) of Integer / List / Tuple / NumericTuple / String with or without an explicit "
                 "default and with symbolic bounds / length / regex choice: whenever the class comes into existence its non-None "
@@ -282,6 +286,108 @@ def root(t: int, route: int, sd: bool, d: int, sb: bool, lo: int, hi: int, s2: b
 root.ranges = lambda consts: dict(t=(0, 4), d=(0, 3), lo=(-1, 4), hi=(-1, 4), lo2=(-1, 4), hi2=(-1, 4))
 
 
+def flags(shape: int, route: int, s1c: bool, c1: bool, s1r: bool, r1: bool, s2c: bool, c2: bool, s2r: bool, r2: bool,
+          s3c: bool, c3: bool) -> None:
+    """constant / readonly over A > [M skipping] > B [> C]: every level specifies a symbolic subset; an unspecified attribute
+    takes the value held by the nearest declaring ancestor, independently of the other attribute (a level that specifies
+    readonly=True itself holds constant=True, as documented for the constructor)."""
+    def kw(sc, c, sr, r):
+        k = {}
+        if pickbool(sc):
+            k['constant'] = pickbool(c)
+        if pickbool(sr):
+            k['readonly'] = pickbool(r)
+        return k
+
+    def held(k, inherited):
+        ro = k['readonly'] if 'readonly' in k else inherited[1]
+        if k.get('constant') is True or k.get('readonly') is True:
+            co = True
+        elif 'constant' in k:
+            co = k['constant']
+        else:
+            co = inherited[0]
+        return (co, ro)
+    k1, k2 = kw(s1c, c1, s1r, r1), kw(s2c, c2, s2r, r2)
+    k3 = {'constant': pickbool(c3)} if pickbool(s3c) else {}
+
+    class A(param.Parameterized):
+        x = param.Parameter(default=1, **k1)
+    Base = A
+    if shape == 1:
+        class M(A):
+            pass
+        Base = M
+    if route == 0:
+        class B(Base):
+            x = param.Parameter(**k2)
+    else:
+        class B(Base):
+            pass
+        B.param.add_parameter('x', param.Parameter(**k2))
+
+    class C(B):
+        x = param.Parameter(**k3)
+    h1 = held(k1, (False, False))
+    h2 = held(k2, h1)
+    h3 = held(k3, h2)
+    info = {'flags': True, 'shape': shape, 'route': route, 'k1': repr(k1), 'k2': repr(k2), 'k3': repr(k3)}
+    for K, h in ((A, h1), (B, h2), (C, h3)):
+        px = K.param.x
+        check('C11.slot_nearest', (px.constant, px.readonly) == h, dict(info, cls=K.__name__, got=(px.constant, px.readonly), exp=h))
+    check('C11.slot_nearest', B.param.x.default == 1 and C.param.x.default == 1, dict(info, attr='default'))
+
+
+def rngstep(route: int, d0: int, d1: int, ss1: bool, st1: int, ss2: bool, st2: int, sb2: bool, lo2: int, hi2: int, ssb2: bool) -> None:
+    """Range: the subclass leaves the default unspecified and specifies a symbolic subset of {step, bounds, softbounds};
+    creation fails exactly when the inherited default violates the merged step direction / bounds.  Both levels allow
+    None, so nothing but the overridden constraint can prompt the re-validation."""
+    ss1, ss2, sb2, ssb2 = pickbool(ss1), pickbool(ss2), pickbool(sb2), pickbool(ssb2)
+    k1 = {'default': (d0, d1), 'allow_None': True}
+    if ss1:
+        assume(st1 != 0)
+        k1['step'] = st1
+    k2 = {'allow_None': True}
+    if ss2:
+        assume(st2 != 0)
+        k2['step'] = st2
+    if sb2:
+        assume(lo2 <= hi2)
+        k2['bounds'] = (lo2, hi2)
+    if ssb2:
+        k2['softbounds'] = (0, 1)
+    try:
+        pa = param.Range(**k1)
+    except ValueError:
+        assume(False)
+
+    class A(param.Parameterized):
+        r = pa
+    try:
+        if route == 0:
+            class B(A):
+                r = param.Range(**k2)
+        else:
+            class B(A):
+                pass
+            B.param.add_parameter('r', param.Range(**k2))
+        ok = True
+    except Exception:
+        ok = False
+    step = k2.get('step', k1.get('step'))
+    order_ok = step is None or (d0 <= d1 if step > 0 else d0 >= d1)
+    bounds_ok = (not sb2) or (lo2 <= d0 <= hi2 and lo2 <= d1 <= hi2)
+    info = {'range_step': True, 'route': route, 'k1': repr(k1), 'k2': repr(k2)}
+    check('C11.creation_iff_invalid', ok == (order_ok and bounds_ok), dict(info, created=ok, order_ok=order_ok, bounds_ok=bounds_ok))
+    if ok:
+        px = B.param.r
+        check('C11.slot_nearest', px.default == (d0, d1) and px.step == step and px.bounds == (k2['bounds'] if sb2 else None),
+              dict(info, got=repr((px.default, px.step, px.bounds))))
+
+
+rngstep.ranges = lambda consts: dict(d0=(-2, 2), d1=(-2, 2), st1=(-1, 1), st2=(-1, 1), lo2=(-2, 2), hi2=(-2, 2))
+
+
 def shards(tier):
     out = []
     q = tier == 'quick'
@@ -316,6 +422,12 @@ def shards(tier):
                                 c.update(s1b=False, lo1=0, hi1=0)
                         out.append(dict(name='sh%d_tc%d_r%d_%d%d' % (shape, tc, route, s2d, s2b), module='harness.c11', fn='prog',
                                         consts=c, budget_s=60 if q else 600))
+    for route in (0, 1):
+        out.append(dict(name='rngstep_r%d' % route, module='harness.c11', fn='rngstep', consts=dict(route=route), budget_s=60 if q else 300))
+    for shape in (0, 1):
+        for route in (0, 1):
+            out.append(dict(name='flags_s%d_r%d' % (shape, route), module='harness.c11', fn='flags', consts=dict(shape=shape, route=route),
+                            budget_s=60 if q else 300))
     for t in range(5):
         for route in range(3):
             out.append(dict(name='root_t%d_r%d' % (t, route), module='harness.c11', fn='root', consts=dict(t=t, route=route),
